@@ -11,6 +11,9 @@
 EXTENDS LfsWire, Json, IOUtils
 
 CONSTANTS Tier            \* "quick" | "thorough"
+Deep == Tier = "thorough"
+RECURSIVE Pow2(_)
+Pow2(e) == IF e = 0 THEN 1 ELSE 2 * Pow2(e - 1)
 
 Dur(ms) == [ms |-> <<ms % 65536, ms \div 65536, 0, 0>>, ns |-> 0]       \* ms < 2^31
 DurL(l) == [ms |-> l, ns |-> 0]
@@ -67,6 +70,14 @@ BasePairs(fs, i, salt) == IF i > Len(fs) THEN {} ELSE BaseField(fs[i], i + salt)
 BaseRec(fs, salt) == LET ps == BasePairs(fs, 1, salt) IN [n \in {p[1] : p \in ps} |-> (CHOOSE p \in ps : p[1] = n)[2]]
 Base(kind) == BaseRec(Layout[kind].fields, 0)
 
+\* mod ids by the shape of their 4 wire bytes: every pattern of alphanumeric (A = 65, z = 122, 7 = 55) / other (0, 154, 95) bytes in
+\* the first three positions with a zero or non-zero last byte - except three alphanumerics followed by 0, which is the shape of a
+\* built-in car name and therefore not a mod id
+ModShapes == {VMod(<<b[1] + 256 * b[2], b[3] + 256 * b[4]>>) :
+                b \in {c \in [1..4 -> {0, 55, 65, 95, 122, 154}] :
+                          /\ c[4] \in {0, 154}
+                          /\ ~(c[1] \in {55, 65, 122} /\ c[2] \in {55, 65, 122} /\ c[3] \in {55, 65, 122} /\ c[4] = 0)
+                          /\ ~(c[1] = 0 /\ c[2] = 0 /\ c[3] = 0 /\ c[4] = 0)}}
 AllSmall ==
      {SmallRec("None", 0, 0, 0, 0, 0)}
   \cup {SmallRec(k, d, 0, 0, 0, 0) : k \in {"Ssp", "Ssg", "Stp", "Rtp"}, d \in {Dur(0), Dur(10), Dur(12340), DurL(Mul10(<<65535, 65535, 0, 0>>))}}
@@ -85,22 +96,26 @@ AllCim ==
 FieldDom(f, base) ==
   CASE f.k = "u" /\ f.name = "spclose" -> {0, 1, 4095}
     [] f.k = "u" /\ f.name \in {"h_mass", "h_tres", "textstart"} -> {0, 1}
-    [] f.k = "u"      -> IF f.w = 1 THEN {0, 1, 127, 128, 255} ELSE {0, 1, 255, 256, 32768, 65535}
-    [] f.k = "i"      -> IF f.w = 1 THEN {-128, -1, 0, 127} ELSE {-32768, -1, 0, 1, 32767}
+    [] f.k = "u"      -> IF f.w = 1 THEN (IF Deep THEN 0..255 ELSE {0, 1, 127, 128, 255})
+                         ELSE {0, 1, 255, 256, 32768, 65535} \cup (IF Deep THEN {Pow2(e) : e \in 0..15} \cup {Pow2(e) - 1 : e \in 1..16} \cup {257, 4660, 65534} ELSE {})
+    [] f.k = "i"      -> IF f.w = 1 THEN (IF Deep THEN -128..127 ELSE {-128, -1, 0, 127})
+                         ELSE {-32768, -1, 0, 1, 32767} \cup (IF Deep THEN {-32767, -256, -255, -129, -128, -2, 2, 127, 128, 255, 256, 4660, 32766} ELSE {})
     [] f.k = "w32"    -> {<<0, 0>>, <<1, 0>>, <<65535, 0>>, <<0, 1>>, <<65535, 32767>>, <<0, 32768>>, <<65535, 65535>>}
     [] f.k = "bool"   -> BOOLEAN
     [] f.k = "char"   -> {0, 33, 65, 127, 255}
     [] f.k = "enum"   -> DOMAIN f.table
     [] f.k = "flags"  -> {<<>>, SetToSeq(DOMAIN f.table)} \cup {<<n>> : n \in DOMAIN f.table}
-    [] f.k = "str"    -> IF f.name = "version" THEN {<<48, 46, 54, 86, 51>>, <<48, 46, 55, 70, 49, 50>>} ELSE {T(n, 97) : n \in {0, 1, f.w - 1}}
-    [] f.k = "vstr"   -> {T(n, 65) : n \in {1, 2, 3, 5, f.max - 3}}
+                         \cup (IF Deep THEN {SetToSeq({n, m}) : n \in DOMAIN f.table, m \in DOMAIN f.table}
+                                          \cup {SetToSeq(DOMAIN f.table \ {n}) : n \in DOMAIN f.table} ELSE {})
+    [] f.k = "str"    -> IF f.name = "version" THEN {<<48, 46, 54, 86, 51>>, <<48, 46, 55, 70, 49, 50>>} ELSE {T(n, 97) : n \in (IF Deep THEN 0..(f.w - 1) ELSE {0, 1, f.w - 1})}
+    [] f.k = "vstr"   -> {T(n, 65) : n \in (IF Deep THEN 1..(f.max - 1) ELSE {1, 2, 3, 4, 5, 8, f.max - 3, f.max - 1})}
     [] f.k = "dur"    -> IF f.w = 2 THEN {Dur(0), Dur(f.scale), Dur(65535 * f.scale)}
                          ELSE {Dur(0), Dur(f.scale), DurL(IF f.scale = 10 THEN Mul10(<<65535, 65535, 0, 0>>) ELSE <<65535, 65535, 0, 0>>),
                                DurL(IF f.scale = 10 THEN Mul10(<<0, 32768, 0, 0>>) ELSE <<0, 32768, 0, 0>>)}
     [] f.k = "racelaps" -> {[k |-> "Practice", v |-> 0], [k |-> "Laps", v |-> 1], [k |-> "Laps", v |-> 99], [k |-> "Laps", v |-> 100],
                             [k |-> "Laps", v |-> 110], [k |-> "Laps", v |-> 1000], [k |-> "Hours", v |-> 1], [k |-> "Hours", v |-> 48]}
     [] f.k = "fuel"   -> {[k |-> "No", v |-> 0], [k |-> "Percentage", v |-> 0], [k |-> "Percentage", v |-> 100], [k |-> "Percentage", v |-> 254]}
-    [] f.k = "vehicle" -> {VStd(n) : n \in StdNames} \cup {VUnknown, VMod(<<1, 1>>), VMod(<<65535, 65535>>), VMod(<<17969, 256>>)}
+    [] f.k = "vehicle" -> {VStd(n) : n \in StdNames} \cup {VUnknown, VMod(<<1, 1>>), VMod(<<65535, 65535>>), VMod(<<17969, 256>>)} \cup ModShapes
     [] f.k = "track"  -> Tracks
     [] f.k = "bytes"  -> {<<0, 0, 0, 0>>, <<255, 254, 253, 252>>}
     [] f.k = "nib"    -> 0..15
@@ -125,13 +140,16 @@ SweepSeq(fs, b) ==
              [j \in 1..Len(d) |-> [b EXCEPT ![fs[i].name] = d[j]]]
              \o (IF fs[i].k = "nib" THEN [v \in 1..16 |-> [b EXCEPT ![fs[i].lo] = v - 1]] ELSE <<>>)])
 \* ... plus one level of nesting: the fields of structs and of the elements of vectors
-Vectors(kind) ==
-  LET fs == Layout[kind].fields  b == Base(kind) IN
+VectorsFrom(kind, b) ==
+  LET fs == Layout[kind].fields IN
   SweepSeq(fs, b)
   \o FlattenSeq([i \in 1..Len(fs) |->
         IF fs[i].k = "struct" THEN LET ss == SweepSeq(fs[i].sub, b[fs[i].name]) IN [j \in 1..Len(ss) |-> [b EXCEPT ![fs[i].name] = ss[j]]]
         ELSE IF fs[i].k = "vec" THEN LET ss == SweepSeq(fs[i].sub, BaseRec(fs[i].sub, 1)) IN [j \in 1..Len(ss) |-> [b EXCEPT ![fs[i].name] = <<ss[j]>>]]
         ELSE <<>>])
+
+\* thorough: the same sweeps around a second base record (other values in every other field)
+Vectors(kind) == VectorsFrom(kind, Base(kind)) \o (IF Deep THEN VectorsFrom(kind, BaseRec(Layout[kind].fields, 4)) ELSE <<>>)
 
 \* vectors outside the wire domain: element counts around the protocol maximum and around what fits one frame in
 \* either size mode, nibble 16, durations one unit beyond the field.  Only the C03 laws are evaluated on them.
@@ -166,16 +184,21 @@ WellFormedVec(kind, mode, rec) ==
         /\ b[2] = Layout[kind].type /\ b[3] = rec.reqi
         /\ (Layout[kind].size # 0 => Len(b) = Layout[kind].size)
 
-VARIABLES ki, nvec, wellformed
-Init == ki = 1 /\ nvec = 0 /\ wellformed = TRUE
-\* one step per packet kind: print every vector of the kind in both size modes
-Next == /\ ki <= Len(KindSeq)
-        /\ LET kind == KindSeq[ki]  vs == Vectors(kind)  hs == Hostile(kind) IN
-           /\ \A vi \in 1..Len(vs) : Line(kind, "C", vs[vi], "in") /\ Line(kind, "U", vs[vi], "in")
-           /\ \A hi \in 1..Len(hs) : Line(kind, "C", hs[hi], "out") /\ Line(kind, "U", hs[hi], "out")
-           /\ wellformed' = \A vi \in 1..Len(vs) : WellFormedVec(kind, "C", vs[vi]) /\ WellFormedVec(kind, "U", vs[vi])
-           /\ nvec' = nvec + 2 * Len(vs) + 2 * Len(hs)
-        /\ ki' = ki + 1
-Spec == Init /\ [][Next]_<<ki, nvec, wellformed>>
+VARIABLES ki, nvec, wellformed, cur, hos
+Init == ki = 1 /\ nvec = 0 /\ wellformed = TRUE /\ cur = <<>> /\ hos = <<>>
+\* two steps per packet kind: build the kind's vectors (held in a variable so that they are evaluated once), then print every
+\* vector in both size modes
+Build == /\ ki <= Len(KindSeq) /\ cur = <<>>
+         /\ cur' = Vectors(KindSeq[ki]) /\ hos' = Hostile(KindSeq[ki])
+         /\ UNCHANGED <<ki, nvec, wellformed>>
+Emit == /\ ki <= Len(KindSeq) /\ cur # <<>>
+        /\ LET kind == KindSeq[ki] IN
+           /\ \A vi \in 1..Len(cur) : Line(kind, "C", cur[vi], "in") /\ Line(kind, "U", cur[vi], "in")
+           /\ \A hi \in 1..Len(hos) : Line(kind, "C", hos[hi], "out") /\ Line(kind, "U", hos[hi], "out")
+           /\ wellformed' = \A vi \in 1..Len(cur) : WellFormedVec(kind, "C", cur[vi]) /\ WellFormedVec(kind, "U", cur[vi])
+           /\ nvec' = nvec + 2 * Len(cur) + 2 * Len(hos)
+        /\ ki' = ki + 1 /\ cur' = <<>> /\ hos' = <<>>
+Next == Build \/ Emit
+Spec == Init /\ [][Next]_<<ki, nvec, wellformed, cur, hos>>
 WellFormed == wellformed
 =============================================================================
